@@ -22,6 +22,11 @@ namespace TTV.Matchers
 inductive ExcCls
   | baseException | exception | typeError | attributeError | valueError | lookupError | keyError
   | assertionError | keyboardInterrupt | systemExit | notImplementedError
+  /- user-defined classes of the harness (round g): `MetaError(Exception, metaclass=abc.ABCMeta)`, `MetaSub(MetaError)`,
+  `MetaValueError(ValueError, metaclass=<a subclass of type>)`, `OddError(LookupError)` (`__slots__`, an `__eq__` of its own:
+  same class and args), `StrRaisesError(Exception)` (its `__str__` raises ValueError), `UserInterrupt(KeyboardInterrupt)`,
+  `UserExit(SystemExit)`.  To the matchers they are classes like any other: only `issubclass` counts. -/
+  | metaError | metaSub | metaValueError | oddError | strRaisesError | userInterrupt | userExit
   | unstable     -- pseudo class: two calls of describe() / str() on the same object gave different text
   | oracleMiss   -- pseudo class: an opaque leaf was asked about a value its table does not list
   | anyCls       -- pseudo class: canonical form of a propagated class that depends on dict/set order
@@ -40,6 +45,13 @@ def ExcCls.ancestors : ExcCls → List ExcCls
   | .keyboardInterrupt => [.keyboardInterrupt, .baseException]
   | .systemExit => [.systemExit, .baseException]
   | .notImplementedError => [.notImplementedError, .exception, .baseException]
+  | .metaError => [.metaError, .exception, .baseException]
+  | .metaSub => [.metaSub, .metaError, .exception, .baseException]
+  | .metaValueError => [.metaValueError, .valueError, .exception, .baseException]
+  | .oddError => [.oddError, .lookupError, .exception, .baseException]
+  | .strRaisesError => [.strRaisesError, .exception, .baseException]
+  | .userInterrupt => [.userInterrupt, .keyboardInterrupt, .baseException]
+  | .userExit => [.userExit, .systemExit, .baseException]
   | .unstable => [.unstable]
   | .oracleMiss => [.oracleMiss]
   | .anyCls => [.anyCls]
@@ -316,6 +328,13 @@ def plainTupleExc : List V → Verdict
 tuple matchee too), so exactly the messages with one conversion format. -/
 def fmtErr (msg : MsgKind) : Bool := msg != .one
 
+/-- is the value an exception instance whose `__str__` raises (ValueError)?  `'%s' % (x,)` calls it. -/
+def strRaises : V → Bool
+  | .exc e false => e.cls == .strRaisesError
+  | _ => false
+/-- does the message ask for `str()` of its (first) argument before anything else can go wrong? -/
+def fmtStr (msg : MsgKind) : Bool := msg == .one || msg == .two
+
 def leafImpl : Leaf → V → Verdict
   | .equals e, v => .ofBool (veq v e)
   | .notEquals e, v => .ofBool (!veq v e)
@@ -354,7 +373,9 @@ def leafImpl : Leaf → V → Verdict
       | .inr e => if isUser e.cls then .match else .raised e.cls
   | .opaque _ dom res, v => lookupTbl v dom res
   | .predicate _ msg dom res, v => match lookupTbl v dom res with
-      | .mismatch => if fmtErr msg then .raised .typeError else .mismatch    -- Mismatch(self.message % (x,))
+      | .mismatch =>                                                         -- Mismatch(self.message % (x,))
+          if strRaises v && fmtStr msg then .raised .valueError               -- the first `%s` calls a `__str__` that raises
+          else if fmtErr msg then .raised .typeError else .mismatch
       | r => r
 
 /-! ## sequencing of already computed verdicts
@@ -385,7 +406,9 @@ def applyPre : PreFn → V → Except ExcCls V
       | none => .error .typeError
   | .strOf, v => match v with           -- harness function: `str()` of an int / an exception instance
       | .int n => .ok (.str ((toString n).toList.map Char.toNat))
-      | .exc e false => .ok (.str ((toString e.arg).toList.map Char.toNat))
+      | .exc e false =>
+          if e.cls == .strRaisesError then .error .valueError        -- its `__str__` raises
+          else .ok (.str ((toString e.arg).toList.map Char.toNat))
       | _ => .error .typeError
 
 /-! ### MatchesSetwise: pairing of the values with the matchers -/
